@@ -271,6 +271,12 @@ func init() {
 		return genParser(seed, n, tier, []string{"OSAP"}, "flags0")
 	}
 	generators["parser-runs"] = genParserRuns
+	// GSAP/OSAP with NoTrailingLiterals on most calls, whole buffer fills
+	// and small blocks: the parse position goes back after a block while the
+	// search structures stay (several blocks per suffix array / edge set)
+	generators["parser-sa-ntl"] = func(seed int64, n int, tier string) []Script {
+		return genParser(seed, n, tier, []string{"GSAP", "OSAP"}, "ntl")
+	}
 }
 
 func pumpOp(r *rand.Rand, data []byte, B int, style string) map[string]any {
@@ -284,6 +290,11 @@ func pumpOp(r *rand.Rand, data []byte, B int, style string) map[string]any {
 		"pntl": pickInt(r, 0, 0, 30, 60, 100), "pnil": pickInt(r, 0, 0, 0, 10, 30),
 		"pearly": pickInt(r, 0, 10, 50), "pprobe": pickInt(r, 0, 10, 30), "pshrink": pickInt(r, 0, 5, 30)}
 	switch style {
+	case "ntl":
+		op["pnil"] = 0
+		op["pntl"] = pickInt(r, 60, 100, 100)
+		op["chunk"] = pickInt(r, B, B+3, len(data)+1)
+		op["pearly"] = 0
 	case "nonil":
 		op["pnil"] = 0
 	case "flags0":
@@ -304,7 +315,7 @@ func genParser(seed int64, n int, tier string, kinds []string, style string) []S
 		maxLen = 600
 		maxB = 300
 	}
-	if style == "flags0" || style == "nonil" {
+	if style == "flags0" || style == "nonil" || style == "ntl" {
 		// cubic oracles: keep blocks and buffers small
 		maxLen, maxB = 220, 130
 	}
@@ -312,6 +323,14 @@ func genParser(seed int64, n int, tier string, kinds []string, style string) []S
 	for i := 0; i < n; i++ {
 		kind := kinds[i%len(kinds)]
 		cfg := genParserCfg(r, kind, maxB)
+		if style == "ntl" {
+			cfg["BlockSize"] = pickInt(r, 5, 8, 13, 16, 24, 33)
+			if int(num(cfg["BufferSize"])) < 40 {
+				cfg["BufferSize"] = 40 + r.Intn(90)
+				cfg["ShrinkSize"] = 0
+			}
+			cfg["WindowSize"] = pickInt(r, 1024, int(num(cfg["BufferSize"])), 2*int(num(cfg["BufferSize"])))
+		}
 		if style == "flags0" || style == "nonil" {
 			// at most 64 bytes per block for the cubic oracles
 			if b := int(num(cfg["BlockSize"])); b == 0 || b > 64 {
@@ -334,7 +353,7 @@ func genParser(seed int64, n int, tier string, kinds []string, style string) []S
 		var ops []map[string]any
 		tags := []string{"go", kind, class}
 		// optional prior history + Reset
-		if r.Intn(5) == 0 && style != "nonil" {
+		if r.Intn(5) == 0 && style != "nonil" && style != "ntl" {
 			pre, _ := genInput(r, r.Intn(120))
 			ops = append(ops, pumpOp(r, pre, B, style))
 			if r.Intn(2) == 0 {
@@ -344,7 +363,7 @@ func genParser(seed int64, n int, tier string, kinds []string, style string) []S
 				if k > len(data) {
 					k = len(data)
 				}
-				ops = append(ops, map[string]any{"op": "reset", "data": B2(data[:k]), "cap": pickInt(r, 0, 3, 7, 8, 20)})
+				ops = append(ops, map[string]any{"op": "reset", "data": B2(data[:k]), "cap": pickInt(r, 0, 3, 7, 8, 20, B+8, 2*B+64)})
 				data = data[k:]
 			}
 			tags = append(tags, "reset")
@@ -360,7 +379,7 @@ func genParser(seed int64, n int, tier string, kinds []string, style string) []S
 		}
 		// trailing calls on an empty buffer
 		ops = append(ops, map[string]any{"op": "parse", "flags": r.Intn(2)})
-		if style != "nonil" {
+		if style != "nonil" && style != "ntl" {
 			ops = append(ops, map[string]any{"op": "parsenil"})
 		}
 		ops = append(ops, map[string]any{"op": "byteat", "rel": "end", "d": 0},
